@@ -585,7 +585,14 @@ def op_reveal(ctx, st, t, cli=False):
             if ctx.prop == "C12":
                 before_counts = _meta_counts(ctx, src)
             dst = ctx.scratch.file("advanced_screen.h5")
-            if rnd.random() < 0.35:
+            in_place = ctx.prop == "C12" and rnd.random() < 0.3
+            if in_place:
+                # the screen is advanced IN PLACE (--output equal to --screen), on a file system with coarse time stamps: the
+                # rewritten file carries the same modification time as before (any side file keyed on path + mtime is stale)
+                dst = src
+                mtime = os.stat(src).st_mtime
+                ctx.stats.fault("clock.coarse-mtime")
+            if not in_place and rnd.random() < 0.35:
                 # fault leftover.earlier-attempt: the step already ran once into this job directory with OTHER arguments
                 # (more plates, or other plates) before the command line was corrected; its output is still there
                 all_ids = sorted(set(_ref_plate_ids(live.rows).values()))
@@ -597,6 +604,8 @@ def op_reveal(ctx, st, t, cli=False):
                 except Exception:
                     pass
             launch.run_cli("reveal_plate", ["--screen", src, "--output", dst, "--plate-id"] + ids)
+            if in_place:
+                os.utime(dst, (mtime, mtime))
             new = Screen.load_h5(dst)
         else:
             # the id collection comes as a list, a tuple, an integer array of either width, or a list of numpy
